@@ -203,6 +203,9 @@ SymGroupStimuli ==
             << <<<<0, 0>>>>, "groups_disjoint" >>, << <<<<0, 5>>>>, "modes_in_range" >>, << <<<<3, 1>>, <<4, 2>>>>, "ok" >>},
      v \in {0, 1}}
 
+NvecsArgStimuli ==
+  {St("nvecs_args", [shape |-> <<3, 4, 2>>, n |-> n, r |-> r], "?") : n \in {0, 2, 3, 0 - 1}, r \in {1, 2, 3, 5, 0}}
+
 All ==
   (IF "ttv" \in Fams THEN TtvStimuli ELSE {}) \cup (IF "ttm" \in Fams THEN TtmStimuli ELSE {})
   \cup (IF "mttkrp" \in Fams THEN {x \in MttkrpStimuli : MttkrpOk(x)} ELSE {})
@@ -213,7 +216,7 @@ All ==
   \cup (IF "more" \in Fams THEN ArrangeStimuli \cup UpdateStimuli \cup SpReshapeStimuli \cup CtorTenmatStimuli
                                \cup CtorSptenmatStimuli \cup CtorSpNegStimuli ELSE {})
   \cup (IF "args" \in Fams THEN ModeArgStimuli \cup UpdateRepStimuli \cup UpdateWeightsStimuli \cup ReconstructStimuli \cup TuckerRankStimuli
-                               \cup OptdimsStimuli \cup CtorSptenmatNegStimuli \cup SymGroupStimuli ELSE {})
+                               \cup OptdimsStimuli \cup CtorSptenmatNegStimuli \cup SymGroupStimuli \cup NvecsArgStimuli ELSE {})
 
 \* keep the well-formed requests and those violating exactly one clause
 \* keep the well-formed requests and those violating at most two clauses (single-clause violations
